@@ -123,7 +123,7 @@ def check(ctx, case):
     meta.update(analyse(case.prog))
     entries = getattr(case, "entries", [case.entry])
     inputs = getattr(case, "all_inputs", {case.entry: case.inputs})
-    ctx.count()
+    ctx.count(2)   # one evaluation = one program at one optimisation setting
     ctx.label("gen:" + (case.note or "core"))
     accepted_any = False
     results = {}
